@@ -8,7 +8,7 @@ n=0; caught=0
 if [ "$kind" = seeded ]; then
   for d in seeded/*/; do
     name=$(basename $d)
-    prop=$(python3 -c "import json;print(json.load(open('$d/meta.json'))['breaks_property'])")
+    prop=$(python3 -c "import json;m=json.load(open('$d/meta.json'));print(m.get('caught_by_quick_tier') if m.get('caught_by_quick_tier','') in [f'C{i:02d}' for i in range(1,20)] else m['breaks_property'])")
     out=$(WIDTH=160 tools/withpatch.sh $d/patch.diff $prop 2>&1 | grep "check=")
     n=$((n+1))
     if echo "$out" | grep -q "rc=1"; then caught=$((caught+1)); echo "CAUGHT $name by $prop"; else echo "MISSED $name by $prop :: $out"; fi
